@@ -627,20 +627,16 @@ func indexCases() []Case {
 				for _, ix := range indexSet(recv0) {
 					i := integer(ix)
 					mk(ty, "[]", recv0, lit(ix), func(p *prog, recv hs.Value) (bool, bool, string) {
-						s := string(recv.(hs.StrV))
+						// a string is a sequence of characters: `len()` counts them, `for` yields them, an index selects one
+						s := []rune(string(recv.(hs.StrV)))
 						p.stmt("let i = %s;", lit(ix))
 						p.stmt("let r = recv[i];")
-						if !isASCII(s) {
-							// byte vs rune indexing of non-ASCII strings is not fixed by the property
-							p.use("r", hs.TStr, nil, 1, "")
-							return false, false, "non-ascii-index"
-						}
 						n, in := normIndex(i, int64(len(s)), int64(len(s)))
 						if !in {
 							p.use("r", hs.TStr, nil, 1, "")
 							return true, true, ""
 						}
-						p.use("r", hs.TStr, hs.StrV(s[n:n+1]), 1, "")
+						p.use("r", hs.TStr, hs.StrV(string(s[n:n+1])), 1, "")
 						p.use("recv", ty, recv, 1, "")
 						return true, false, ""
 					})
